@@ -205,8 +205,94 @@ def h_idem(n, first_type):
     return ['accepted', len(msg.payloads), bool(ok)]
 
 
+def h_critical(first):
+    """one generic payload of type `first` (a known type, or every type without a class) with an ARBITRARY C|RESERVED octet: the seven reserved
+    bits are ignored on receipt (RFC 7296 3.2), an unknown payload is skipped unless bit 7 is set, a known one carries critical == bit 7"""
+    from symx import core
+    import z3
+    eng = core.engine()
+    m = MODS['message']
+    hdr = eng.sym_bytes('spis', 16) + eng.sym_bytes('first_payload', 1) + b'\x20\x25\x08' + eng.sym_bytes('mid', 4) + (40).to_bytes(4, 'big')
+    octet = eng.sym_int('c_reserved', 0, 255)
+    body = eng.sym_bytes('body', 8)
+    d = core.SymBytes.lift(hdr) + b'\0' + core.SymBytes([core.int_to_byte(octet)]) + b'\0\x0c' + body
+    t = d.items[16]
+    known = [int(k) for k in m.Message.type_2_payload]
+    if first == 'other':
+        eng.assume(core.SymBool(z3.And(*[t != k for k in known + [0]])))
+    else:
+        eng.assume(core.SymBool(t == first))
+    crit = (octet & 0x80) != 0
+    try:
+        msg = m.Message.parse(d)
+    except m.UnsupportedCriticalPayload:
+        if first != 'other':
+            return {'class': ['critical'], 'violation': f'payload of the known type {first} rejected as an unsupported critical payload'}
+        eng.prove(crit, 'an unknown payload whose Critical bit (bit 7) is CLEAR was rejected as critical: reserved bits were not ignored')
+        return ['critical', 'rejected-critical']
+    except m.IkeSaError:
+        return ['critical', 'rejected']
+    if first == 'other':
+        eng.prove(core.sym_not(crit), 'an unknown payload with the Critical bit set was accepted')
+        if msg.payloads:
+            return {'class': ['critical'], 'violation': 'an unknown payload produced a payload object'}
+        return ['critical', 'skipped']
+    if len(msg.payloads) != 1:
+        return {'class': ['critical'], 'violation': f'{len(msg.payloads)} payload objects for one payload'}
+    c = msg.payloads[0].critical
+    eng.prove(crit if bool(c) else core.sym_not(crit), 'the critical attribute of a parsed payload is not bit 7 of the C|RESERVED octet')
+    b2 = msg.to_bytes()
+    # senders MUST clear the Critical bit of every payload type RFC 7296 defines (3.2): the re-serialised octet is not required to echo it
+    eng.prove((b2[29] & 0x7f) == 0, 're-serialised C|RESERVED octet has reserved bits set')
+    return ['critical', 'parsed']
+
+
+def h_clear_then_sk(n_clear, with_inner):
+    """clear payloads FOLLOWED by an Encrypted payload (RFC 7296 3.14: SK is the last payload): serialise, parse with and without the keys"""
+    from symx import core
+    eng = core.engine()
+    m, c = MODS['message'], MODS['crypto']
+    T = m.Transform
+    crypto = c.Crypto(c.Cipher(T(T.Type.ENCR, T.EncrId.ENCR_AES_CBC, 256)), eng.sym_bytes('sk_e', 32), c.Integrity(T(T.Type.INTEG, T.IntegId.AUTH_HMAC_SHA2_256_128)),
+                      eng.sym_bytes('sk_a', 32), c.Prf(T(T.Type.PRF, T.PrfId.PRF_HMAC_SHA2_256)), b'p' * 32)
+    clear = [m.PayloadVENDOR(eng.sym_bytes(f'vendor{i}', 4)) for i in range(n_clear)]
+    inner = [m.PayloadNONCE(eng.sym_bytes('nonce', 16))] if with_inner else []
+    msg = m.Message(eng.sym_bytes('spi_i', 8), eng.sym_bytes('spi_r', 8), 2, 0, m.Message.Exchange.INFORMATIONAL, False, False, True,
+                    eng.sym_int('mid', 0, 0xFFFFFFFF), list(clear), list(inner), crypto=crypto, iv=eng.sym_bytes('iv', 16))
+    try:
+        data = msg.to_bytes()
+        if len(msg.payloads) != n_clear:
+            return {'class': ['clear+sk'], 'violation': 'to_bytes() changed the list of clear payloads of the message object'}
+        want_first = 43 if n_clear else 46
+        if not bool(data[16] == want_first):
+            return {'class': ['clear+sk'], 'violation': f'header Next Payload is {data[16]}, the first payload has type {want_first}'}
+        back = m.Message.parse(data, crypto=crypto)
+        blind = m.Message.parse(data)
+    except Exception as ex:     # noqa
+        return {'class': ['clear+sk'], 'violation': f'a message with {n_clear} clear payload(s) before the Encrypted payload cannot be serialised/parsed: '
+                                                    f'{type(ex).__name__}: {ex}'}
+    P = eng.prove
+    # with the keys the Encrypted payload is consumed, without them it stays as the last payload object
+    if len(back.payloads) != n_clear or len(back.encrypted_payloads) != len(inner) or len(blind.payloads) != n_clear + 1:
+        return {'class': ['clear+sk'], 'violation': f'round trip changed the number of payloads ({len(back.payloads)} clear, {len(back.encrypted_payloads)} inner; '
+                                                    f'{len(blind.payloads)} without keys)'}
+    for i in range(n_clear):
+        P(core.SymBytes.lift(back.payloads[i].vendor_id) == clear[i].vendor_id, 'round trip changed a clear payload')
+    if not bool(blind.payloads[-1].type == 46) or not back.is_protected:
+        return {'class': ['clear+sk'], 'violation': 'the last payload is not taken for the Encrypted payload'}
+    if inner:
+        P(core.SymBytes.lift(back.encrypted_payloads[0].nonce) == inner[0].nonce, 'round trip changed the encrypted payload')
+    return ['clear+sk', n_clear, with_inner]
+
+
 def build_instances(tier):
     inst = []
+    for ft in sorted(int(k) for k in MODS['message'].Message.type_2_payload if int(k) != 46) + ['other']:
+        inst.append(Instance(f'critical/reserved octet first={ft}', h_critical, (ft,)))
+    for n_clear in (0, 1, 2):
+        for wi in (True, False):
+            inst.append(Instance(f'clear payloads then SK n={n_clear} inner={wi}', h_clear_then_sk, (n_clear, wi),
+                                 must_reach=[('round trip', lambda o: o[0] == 'clear+sk')]))
     for k in ('KE', 'NOTIFY', 'NOTIFY0', 'DELETE', 'DELETE3', 'NONCE', 'ID', 'AUTH', 'VENDOR', 'TS', 'TS6', 'SA', 'SA3'):
         inst.append(Instance(f'encode {k}', h_encode, (k,), must_reach=[('encoded', lambda o: o[0] == 'encoded')]))
     known = sorted(int(k) for k in MODS['message'].Message.type_2_payload)
